@@ -222,6 +222,7 @@ class C05Struct(Scenario):
 class C05Cuckoo(CuckooWorld):
     prop = "C05"
     allow_restart = True
+    allow_huge = True
 
     def gen_step(self, rng):
         st = super().gen_step(rng)
